@@ -73,6 +73,22 @@ func prepared(root string, pc *PlanCase, es []Entry) (items []planItem, raw []st
 	return items, raw, nil
 }
 
+// sameTypeFor compares entry types as far as they mean something to packager f: noreplace and missingok are rpm
+// notions (C08 states what each format must do with them), so outside rpm - and for the packager-neutral plan -
+// every config variant is one type, and "" is the plain file type.
+func sameTypeFor(f, got, want string) bool {
+	norm := func(t string) string {
+		if t == "" {
+			return "file"
+		}
+		if f != "rpm" && strings.HasPrefix(t, "config") {
+			return "config"
+		}
+		return t
+	}
+	return norm(got) == norm(want)
+}
+
 func expectedType(n *ExpNode) string {
 	switch n.Kind {
 	case "dir":
@@ -173,7 +189,7 @@ func checkPlanOutput(root string, pc *PlanCase, items []planItem, want map[strin
 			vs.add("C05.plan-missing", f, "%s (%s, entry %d) is missing from the plan", p, expectedType(n), n.Entry)
 			continue
 		}
-		if it.Type != expectedType(n) {
+		if !sameTypeFor(f, it.Type, expectedType(n)) {
 			vs.add("C05.plan-type", f, "%s has type %q, expected %q", p, it.Type, expectedType(n))
 		}
 		switch n.Kind {
